@@ -69,7 +69,7 @@ func VerifC02BlockTime() {
 	raw := json.RawMessage("[opaque]")
 	req := &jsonrpc2.Request{Method: "getBlockTime", ID: jsonrpc2.ID{Num: 1}, Params: &raw}
 	conn := &requestContext{ctx: &fasthttp.RequestCtx{}}
-	errResp, err := multi.handleGetBlockTime(context.Background(), conn, req)
+	errResp, err := multi.handleRequest(context.Background(), conn, req)
 	verifAssert(errResp == nil && err == nil, "C02.blockTime: JSON: archived slot is answered with an error")
 	if errResp != nil || err != nil {
 		return
